@@ -7,7 +7,7 @@ CONSTANTS
   NBug = "none"
   NVSpace = "d2"
   NCompoundV = "small"
-  NKinds = {"isinstance", "issubclass", "typeis", "typeguard", "is", "eq", "in", "truthy", "len", "cmp", "c_isinstance", "c_isvalue", "match", "matchseq", "not", "and", "or", "deep"}
+  NKinds = {"isinstance", "issubclass", "typeis", "typeguard", "is", "eq", "in", "truthy", "len", "cmp", "lenr", "c_isinstance", "c_isvalue", "match", "matchseq", "not", "and", "or", "deep"}
 INVARIANT InvN1
 INVARIANT InvN2
 INVARIANT InvN3
